@@ -352,6 +352,57 @@ class C03(ProbeMixin, HistProp):
             out.append({'input': {'probe': 'repeated_row_operand', 'seed': k}, 'observed': {'problem': problem},
                         'pyfail': problem, 'oracle': 'true', 'model': 'true', 'nontrivial': True,
                         'sig': 'probe|repeated_row_operand|%d' % k, 'tags': ['probe', 'probe:repeated_row_operand']})
+        # col[selection] as a READ: a related selection gives exactly the cells of the rows it names, in its order,
+        # for every column type and row order; a relative that holds a row the column lacks raises (never the cells of
+        # other rows); an unrelated table raises
+        from datamatrix import IntColumn, SeriesColumn, operations as ops
+        for k in range(n):
+            sub = random.Random(rng.randrange(1 << 30))
+            problem = None
+            with warnings.catch_warnings():
+                warnings.simplefilter('ignore')
+                try:
+                    m = sub.randint(6, 12)
+                    dm = DataMatrix(length=m)
+                    dm.a = ['r%d' % i for i in range(m)]
+                    dm.f = FloatColumn
+                    dm.f = list(range(m))
+                    dm.i = IntColumn
+                    dm.i = list(range(m))
+                    dm.s = SeriesColumn(depth=2)
+                    dm.s[:, 0] = list(range(m))
+                    random.seed(sub.randrange(1 << 30))
+                    base = sub.choice([dm, ops.shuffle(dm), ops.sort(dm, by=dm.a)[::-1], dm[sub.sample(range(m), m - 2)]])
+                    have = [int(v) for v in base.i]
+                    inside = sub.sample(have, sub.randint(0, len(have)))
+                    sel = dm[inside] if inside else dm[:0]
+                    other = DataMatrix(length=m)
+                    other.a = 0
+                    for cn in ('a', 'f', 'i', 's'):
+                        col = base[cn]
+                        got = col[sel]
+                        vals = [int(v[0]) for v in got._seq] if cn == 's' else [int(float(str(v).lstrip('r'))) for v in got]
+                        if vals != inside:
+                            problem = problem or 'col %s [selection of rows %r] read rows %r (table order %r)' % (cn, inside, vals, have)
+                        lack = [i for i in range(m) if i not in have]
+                        if lack:
+                            bad = dm[[lack[0]] + inside[:2]]
+                            try:
+                                r = col[bad]
+                                problem = problem or ('col %s [relative holding row %d, which the column lacks] returned %r instead of raising'
+                                                      % (cn, lack[0], list(r) if cn != 's' else r._seq.tolist()))
+                            except (KeyError, IndexError, ValueError):
+                                pass
+                        try:
+                            col[other]
+                            problem = problem or 'col %s [unrelated table] did not raise' % cn
+                        except Exception:       # noqa: BLE001
+                            pass
+                except Exception as e:      # noqa: BLE001
+                    problem = 'probe raised %r' % (e,)
+            out.append({'input': {'probe': 'selection_read', 'seed': k}, 'observed': {'problem': problem},
+                        'pyfail': problem, 'oracle': 'true', 'model': 'true', 'nontrivial': True,
+                        'sig': 'probe|selection_read|%d' % k, 'tags': ['probe', 'probe:selection_read']})
         return out
 
 
